@@ -93,6 +93,9 @@ def build_arg(name, td, inputs):
                 out.append(("a", "\u00e4", "\u20ac", "\U0001f600")[e])
             return "".join(out)
         return raw.decode("utf-8", errors="replace")
+    if k == "text":
+        codes = v.get("text") if isinstance(v, dict) else None
+        return "".join(chr(c % 128) for c in (codes or []))
     if k == "real":
         if isinstance(v, dict) and isinstance(v.get("real"), list):
             return v["real"][0] / v["real"][1]
@@ -186,7 +189,32 @@ def run_with_repair(req):
                 a2["repaired_inputs"] = inp2
                 a2["repair"] = f"input {k}: one 2-octet window rewritten so that a prefix has CRC residue 0 ({tries} candidates tried)"
                 return a2
-    ans["repair_tried"] = tries
+    # The verifier's float model over-approximates binary64 rounding, so a model of an integer input may
+    # need a search in its neighbourhood before the real floats fail too.
+    ntries = 0
+    import inspect
+    params = inspect.signature(find_harness(req["module"], req["name"])).parameters
+    for k, v in list(inputs.items()):
+        if isinstance(v, bool) or not isinstance(v, int):
+            continue
+        td = params[k].annotation if k in params else None
+        if getattr(td, "kind", None) != "int":
+            continue
+        lo, hi = td.args
+        for step in (1, 1000, 1000000):
+            for j in range(1, 17):
+                for delta in (j * step, -j * step):
+                    if (lo is not None and v + delta < lo) or (hi is not None and v + delta > hi):
+                        continue
+                    ntries += 1
+                    inp2 = dict(inputs)
+                    inp2[k] = v + delta
+                    a2 = run_one({"module": req["module"], "name": req["name"], "inputs": inp2})
+                    if not a2.get("precondition_false") and violated(a2, label):
+                        a2["repaired_inputs"] = inp2
+                        a2["repair"] = f"input {k}: neighbourhood search, {v} -> {v + delta} ({ntries} candidates tried)"
+                        return a2
+    ans["repair_tried"] = tries + ntries
     return ans
 
 
